@@ -102,6 +102,9 @@ structure Pay where
   exc : Option Exc := none
   /-- `ClientResponse._response_eof` is in `_eof_callbacks` -/
   cb : Bool := false
+  /-- the exchange whose `set_response_params` built the parser that created this stream:
+  the stream carries *that* request's timer -/
+  tj : Tag := none
   ex : Tag := none
   prov : List Tag := []
 deriving Repr
@@ -132,6 +135,8 @@ structure Conn (P : Parser) where
   pays : List Pay := []
   owner : Tag := none
   pooled : Option Nat := none
+  /-- the exchange that installed the current parser (its timer goes into every stream) -/
+  pj : Tag := none
   ptags : List Tag := []
   tailTags : List Tag := []
   /-- ghost: something was queued or buffered on this connection while nobody held it -/
@@ -208,7 +213,7 @@ state and whether the callback released the connection. -/
 def applyEvCore (rel : Conn P → Conn P) (c : Conn P) (released : Bool) (msgs : List (Msg × Option Nat)) :
     PEv → Conn P × Bool × List (Msg × Option Nat)
   | .msg m true =>
-    ({ c with pays := c.pays ++ [{ ex := c.owner, prov := c.ptags }], cur := some c.pays.length }, released,
+    ({ c with pays := c.pays ++ [{ tj := c.pj, ex := c.owner, prov := c.ptags }], cur := some c.pays.length }, released,
      msgs ++ [(m, some c.pays.length)])
   | .msg m false => ({ c with cur := none }, released, msgs ++ [(m, none)])
   | .data bs => (evData c bs, released, msgs)
@@ -305,7 +310,7 @@ def dataReceived (c : Conn P) (now : Nat) (forceClose : Bool) (data : Bytes) (ta
 
 /-- `ResponseHandler.set_response_params(skip_payload=skip, …)`: fresh parser, replay `_tail` -/
 def setResponseParams (c : Conn P) (now : Nat) (forceClose : Bool) (skip : Bool) : Conn P × Bool :=
-  let c := { c with skip := skip, parser := some (P.init skip), ptags := [], cur := none }
+  let c := { c with skip := skip, parser := some (P.init skip), ptags := [], cur := none, pj := c.owner }
   if !c.tail.isEmpty then
     let data := c.tail
     let tags := c.tailTags
